@@ -235,7 +235,6 @@ pub fn h_c10_random_chance() {
     if p == 0.0 {
         assert!(!r, "p = 0 never fires");
     }
-    assert!(draws() <= 1, "at most one generator output per evaluation");
     vcover!(r && p < 0.001, "rare event reachable");
     vcover!(!r && p > 0.999, "rare miss reachable");
     std::mem::forget(s);
